@@ -27,10 +27,10 @@ pub const CHECKS: &[CheckDef] = &[
     CheckDef { id: "C08", quick_runs: 15000, thorough_runs: 150_000, level: "exploration", title: "waiting primitives wake exactly on notification" },
     CheckDef { id: "C09", quick_runs: 15000, thorough_runs: 150_000, level: "exploration", title: "mpsc: once, in order, with ordering" },
     CheckDef { id: "C10", quick_runs: 6000, thorough_runs: 300_000, level: "exploration", title: "leaks reported exactly" },
-    CheckDef { id: "C11", quick_runs: 2500, thorough_runs: 300_000, level: "exploration", title: "loom::sync::Arc behaves like std::sync::Arc" },
+    CheckDef { id: "C11", quick_runs: 6000, thorough_runs: 300_000, level: "exploration", title: "loom::sync::Arc behaves like std::sync::Arc" },
     CheckDef { id: "C13", quick_runs: 700, thorough_runs: 40_000, level: "fault_enumeration", title: "deterministic and resumable exploration" },
     CheckDef { id: "C14", quick_runs: 5000, thorough_runs: 80_000, level: "exploration", title: "exploration terminates and never repeats" },
-    CheckDef { id: "C16", quick_runs: 500, thorough_runs: 20_000, level: "exploration", title: "iterations and models are isolated" },
+    CheckDef { id: "C16", quick_runs: 1500, thorough_runs: 20_000, level: "exploration", title: "iterations and models are isolated" },
     CheckDef { id: "C19", quick_runs: 1000, thorough_runs: 40_000, level: "exploration", title: "exploration controls and limits" },
     CheckDef { id: "C15", quick_runs: 1500, thorough_runs: 60_000, level: "exploration", title: "preemption bound is sound and monotone" },
 ];
@@ -165,7 +165,10 @@ pub fn generate(check: &str, tier: &str, seed: u64, run: u64) -> Case {
             }
         }
         "C10" => gen_arc(&mut rng, true),
-        "C11" => gen_arc(&mut rng, false),
+        "C11" => {
+            config.iter_cap = if thorough { 30_000 } else { 4000 };
+            gen_arc(&mut rng, false)
+        }
         "C14" => match rng.below(4) {
             3 => gen_many_stores(&mut rng),
             0 => gen_litmus_any(&mut rng, false),
